@@ -258,9 +258,15 @@ type failingScanner struct {
 	err       error
 	delivered int
 	canUnread bool
+	// stepBack: UnreadRune after a failed ReadRune steps back over the last rune
+	// that was read (io.RuneScanner allows that as well as an error); reads
+	// counts the ReadRune calls (a bound against running in circles)
+	stepBack bool
+	reads    int
 }
 
 func (s *failingScanner) ReadRune() (rune, int, error) {
+	s.reads++
 	if s.i >= s.k {
 		s.delivered++
 		s.canUnread = false
@@ -273,6 +279,10 @@ func (s *failingScanner) ReadRune() (rune, int, error) {
 }
 
 func (s *failingScanner) UnreadRune() error {
+	if !s.canUnread && s.stepBack && s.delivered > 0 && s.i > 0 && s.reads < 100000 {
+		s.i--
+		return nil
+	}
 	if !s.canUnread {
 		return errors.New("nothing to unread")
 	}
@@ -323,6 +333,19 @@ func c10Exec(c *core.Ctx, cs c10Case) {
 		cmds, com, err := parser.ParseCommands(nil, "c10", fs)
 		c.Eval(1)
 		c10Judge(c, fmt.Sprintf("RuneScanner k=%d of %d | %s", k, len(rs), q(src)), fs.delivered, inj, err, skel.Cmds(cmds, skel.Strict)+fmt.Sprint(commentTextsOf(com))+c10Err(err), want, rs, k)
+	}
+	// a RuneScanner of the other permitted kind: after a failed read its UnreadRune steps back
+	for k := 0; k <= len(rs); k++ {
+		inj := c10Inject(int(c.Index())+k+2, fmt.Sprintf("injected read failure at rune %d", k))
+		fs := &failingScanner{rs: rs, k: k, err: inj, stepBack: true}
+		_, _, err := parser.ParseCommands(nil, "c10", fs)
+		c.Eval(1)
+		switch {
+		case fs.reads >= 100000:
+			c.Violation("read-error-lost", fmt.Sprintf("step-back RuneScanner k=%d of %d | %s", k, len(rs), q(src)), inj.Error(), "the same runes are read over and over (100000 reads)", "")
+		case fs.delivered > 0 && (err == nil || !errors.Is(err, inj)):
+			c.Violation("read-error-lost", fmt.Sprintf("step-back RuneScanner k=%d of %d | %s", k, len(rs), q(src)), inj.Error(), fmt.Sprint(err), "")
+		}
 	}
 	b := []byte(src)
 	for k := 0; k <= len(b); k++ {
